@@ -62,3 +62,13 @@ PLANS["C02"] = Plan(
     explanation="every table row against independent exact definitions (ground, exhaustive); "
                 "prefix lookup and conversion factor proved for all tables",
 )
+
+ROUTES = [("contracts.routes", "InUnits"), ("contracts.routes", "To"),
+          ("contracts.routes", "ConvertToUnits")]
+PLANS["C03"].proofs += ROUTES
+
+PLANS["C18"] = Plan(level="proof", proofs=ROUTES + [("contracts.unit_ops", "AsCoeffUnit")],
+                    trusted_base=BASE_TRUST,
+                    explanation="normal and exceptional frame conditions of the conversion routes")
+PLANS["C17"] = Plan(level="proof", proofs=ROUTES, trusted_base=BASE_TRUST,
+                    explanation="dtype obligations decided for the whole dtype lattice (symbolic kind/itemsize)")
